@@ -26,6 +26,7 @@ func runC10(p *core.Prog, r *core.Report) {
 	c10R3(p, r)
 	c10R4(p, r)
 	c10R5(p, r)
+	staleIndexRule(p, r, "C10.R6")
 }
 
 func c10R1(p *core.Prog, r *core.Report) {
